@@ -6,7 +6,9 @@
 (* the relation LogOk between any record and the returned value: a str in  *)
 (* which every LF is followed by four spaces of indentation.               *)
 (*                                                                         *)
-(* cfg  = the record shape: message type (str / bytes), %-arguments,       *)
+(* cfg  = the record shape: message type (str / bytes), %-arguments (incl.  *)
+(*        a mapping lacking the referenced key and an object whose __str__ *)
+(*        raises RuntimeError),                                            *)
 (*        exception info, colour, level;  inp = the message text built     *)
 (*        token by token (LF, CR LF, format directives, non-ASCII and      *)
 (*        non-UTF-8 bytes, a forged "[E ..." line).                        *)
@@ -26,7 +28,8 @@ LogOk(obs) == /\ "v" \in DOMAIN obs                 \* returned a str (the adapt
 Indent(s) == CatMap(LAMBDA c : IF c = 10 THEN <<10>> \o Indent4 ELSE <<c>>, s)
 
 Tokens == {<<97>>, <<10>>, <<13, 10>>, <<37, 115>>, <<37, 100>>, <<37>>, <<233>>, <<255>>,
-           <<10, 91, 69, 32, 50, 53>>}                    \* a LF "\r\n" %s %d % e-acute 0xFF "\n[E 25"
+           <<10, 91, 69, 32, 50, 53>>, <<37, 40, 107, 41, 115>>, <<37, 40, 120, 41, 115>>}
+           \* a LF "\r\n" %s %d % e-acute 0xFF "\n[E 25" %(k)s (key missing from the dict argument) %(x)s (key present)
 
 Ref(fn, x) == [rel |-> "LogOk"]
 Fns == {"format"}
